@@ -159,6 +159,12 @@ class World:
                 return [d] + p[::-1]
         return None
 
+    def _ancestors(self, node):
+        n = node.parent
+        while n is not None:
+            yield n
+            n = n.parent
+
     def new_node(self, name, value, attrs, xsd_check, el):
         self.nsid += 1
         return Node(self.nsid, name, value, attrs, xsd_check, el)
@@ -310,12 +316,27 @@ class World:
             return ('ok', None)
         return ('exc', r[1], 'construct')
 
+    def _detached(self, k):
+        """k-th node that was removed / replaced out earlier and is still detached (re-use of a child)."""
+        if not isinstance(k, int) or k < 0 or k >= len(self.removed):
+            raise _Skip('no detached node %r' % (k,))
+        n = self.removed[k]
+        if n.parent is not None or any(n is r for r in self.docs.values()):
+            raise _Skip('node %d is attached again' % k)
+        return n
+
     def op_ADD(self, op):
         parent = self._need(op['p'])
-        r = self.call(lambda: self.build(op['c']))
-        if r[0] != 'ok':
-            return ('exc', r[1], 'construct')
-        child = r[1]
+        if 'reuse' in op:
+            child = self._detached(op['reuse'])
+            if child is parent or any(x is child for x in self._ancestors(parent)):
+                raise _Skip('cycle')
+            self.cap = ('', '')
+        else:
+            r = self.call(lambda: self.build(op['c']))
+            if r[0] != 'ok':
+                return ('exc', r[1], 'construct')
+            child = r[1]
         cap0 = self.cap
         if 'fwd' in op and op['fwd'] is not None:
             r = self.call(lambda: parent.el.add_child(child.el, forward=op['fwd']))
@@ -338,6 +359,11 @@ class World:
                 return ('exc', r[1], 'construct')
             stranger = r[1]
             r = self.call(lambda: parent.el.remove(stranger.el))
+            return ('ok', None) if r[0] == 'ok' else ('exc', r[1], 'remove')
+        if 'reuse' in op:
+            # fault: remove a child that was detached earlier (removed or replaced out)
+            stale = self._detached(op['reuse'])
+            r = self.call(lambda: parent.el.remove(stale.el))
             return ('ok', None) if r[0] == 'ok' else ('exc', r[1], 'remove')
         if i >= len(parent.children):
             raise _Skip('no child %d' % i)
@@ -419,6 +445,14 @@ class World:
         # plain value
         val = v['value']
         r = self.call(lambda: setattr(parent.el, attr, val))
+        if r[0] == 'ok' and val is None:
+            # None means removal in the shortcut syntax
+            if existing:
+                old = existing[0]
+                parent.children.remove(old)
+                old.parent = None
+                self.removed.append(old)
+            return ('ok', None)
         if r[0] == 'ok':
             if existing:
                 existing[0].value = val
@@ -427,12 +461,12 @@ class World:
                 kids = parent.el.get_children(ordered=False)
                 known = {id(c.el) for c in parent.children}
                 fresh = [k for k in kids if id(k) not in known]
-                if len(fresh) == 1:
-                    n = self.new_node(cname, val, {}, True, fresh[0])
+                # adopt whatever the library created (normally exactly one child; none when it treated the
+                # value as "nothing to set"); conservation is judged by the C06 checker, not here
+                for k in fresh:
+                    n = self.new_node(cname, val, {}, True, k)
                     n.parent = parent
                     parent.children.append(n)
-                else:
-                    self.violate('C06', 'dot-set-created-%d-children' % len(fresh), {'name': cname})
             return ('ok', None)
         return ('exc', r[1], 'dot_set')
 
@@ -641,7 +675,7 @@ class World:
     def op_FAULT(self, op):
         k = op['kind']
         p = op.get('params') or {}
-        if k.startswith('fs.') and k != 'fs.encoding':
+        if k.startswith('fs.') and k not in ('fs.encoding', 'fs.prior', 'fs.clear'):
             if k == 'fs.readonly':
                 self.fs.readonly.add(MOUNT + p['path'])
             elif k == 'fs.is_dir':
